@@ -502,7 +502,13 @@ class SimReactor(Clock):
 
     # ---- connection plumbing
     def _later_lost(self, t, reason):
-        self.lost_queue.append((t, reason))
+        # as tcp.Connection.abortConnection does: connectionLost from a callLater(0); virtual
+        # time cannot advance past it
+        def fire():
+            if not t.disconnected:
+                t.out.fin = not t.out.blackhole
+                t._connection_lost(reason)
+        self.callLater(0, fire)
 
     def _link_maybe_done(self, link):
         pass
@@ -577,8 +583,6 @@ class SimReactor(Clock):
         """All currently enabled network actions as (kind, key, obj...) tuples.  `key`
         identifies the *source* (stable across steps) for priority-based strategies."""
         acts = []
-        for (t, reason) in self.lost_queue[:1]:
-            acts.append(("lost", ("lost",), t, reason))
         for c in self.pending:
             if c.state == "connecting" and self.routable(c.host, c.port):
                 acts.append(("connect", ("connect", c.cid), c))
